@@ -1340,6 +1340,14 @@ func (m *List) clone(parent Meta) interface{} {
 		}
 	}
 	
+	if m.unique != nil {
+		// a list of its own: a deviation appends to (and sorts) the one of its target
+		copy.unique = make([][]string, len(m.unique))
+		for i, u := range m.unique {
+			copy.unique[i] = append([]string(nil), u...)
+		}
+	}
+	
 
 	return &copy
 }
